@@ -258,6 +258,23 @@ pub fn handle(st: &mut State, toks: &[&str]) -> HResult {
             st.bm[i] = Some(RoaringBitmap::from_lsb0_bytes(off, &bytes));
             Some("ok".to_string())
         }
+        // from_lsb0_zeros bD off len : a slice of `len` zero bytes with bit `tail` of the last byte set when tail < 8
+        // (lets the 2^29-byte boundary be exercised without a 1 GiB hex literal)
+        ["from_lsb0_zeros", d, off, len, tail] => {
+            let i = slot('b', d)?;
+            let off: u32 = off.parse().ok()?;
+            let len: usize = len.parse().ok()?;
+            let tail: u32 = tail.parse().ok()?;
+            if len > (1usize << 29) + 8 {
+                return None;
+            }
+            let mut bytes = vec![0u8; len];
+            if tail < 8 && len > 0 {
+                bytes[len - 1] = 1 << tail;
+            }
+            st.bm[i] = Some(RoaringBitmap::from_lsb0_bytes(off, &bytes));
+            Some("ok".to_string())
+        }
         ["stats", d] => {
             let b = st.bm[slot('b', d)?].as_ref()?;
             let s = b.statistics();
